@@ -240,6 +240,7 @@ End Readers.
 Section PrintArr.
 Variables dec2f dec2d : list Z -> Z.
 Variable o : popts.
+Variable parr : parr_t.
 Notation item_ok := (item_ok dec2f dec2d).
 Notation iter_text := (iter_text dec2f dec2d).
 Notation iseq_from := (iseq_from dec2f dec2d).
@@ -299,11 +300,11 @@ Definition sp4 : list Z := [32; 32; 32; 32].
 Lemma arr_step a0 rest prev i n acc (first bb : bool) wrt cols awtl fuel res :
   Forall goodc (a0 :: rest) -> Z.of_nat (length (a0 :: rest)) < 2 ^ 31 ->
   n + 1 - i = Z.of_nat (length (a0 :: rest)) -> (forall p, prev = Some p -> scalar p) ->
-  print_array_loop print_arg_val (S fuel) o (a0 :: rest) prev i n acc first bb wrt cols awtl = Some res ->
+  print_array_loop print_arg_val parr (S fuel) o (a0 :: rest) prev i n acc first bb wrt cols awtl = Some res ->
   exists its1 inc t (brk : bool) cols2 awtl2,
     (1 <= inc <= length (a0 :: rest))%nat /\ iorig its1 = firstn inc (a0 :: rest) /\
     iter_text prev its1 t /\ (forall p, ilast its1 = Some p -> scalar p) /\
-    print_array_loop print_arg_val fuel o (skipn inc (a0 :: rest)) (ilast its1) (i + Z.of_nat inc) n
+    print_array_loop print_arg_val parr fuel o (skipn inc (a0 :: rest)) (ilast its1) (i + Z.of_nat inc) n
       (if first then (if brk then sp4 ++ acc ++ t else acc ++ t)
        else acc ++ (if brk then nl4 else [32]) ++ t)
       false (bb || (first && brk)) (wrt + len t + (if brk then 4 else 0) + 1) (cols2 + 1) awtl2 = Some res.
@@ -313,13 +314,15 @@ Proof.
   assert (Hty : hd_type (a0 :: rest) =? 97 = false)
     by (pose proof (Forall_inv Hg) as Hg0; destruct a0; cbn in Hg0; try contradiction; reflexivity).
   destruct (convert_to_range o (a0 :: rest) (n + 1 - i)) as [|c kk|] eqn:Ecv; [| |discriminate].
-  all: rewrite Hty in Hrun.
+  1: rewrite Hty in Hrun.
+  2: destruct (conv_yes_head o _ _ _ _ Ecv) as (n0 & h0 & r0 & Ec0); rewrite Ec0 in Hrun;
+     cbn [hd_type av_type] in Hrun; change (45 =? 97) with false in Hrun; cbv iota in Hrun; rewrite <- Ec0 in Hrun.
   all: match type of Hrun with context [print_arg_val ?oo ?inp ?cc ?pp] =>
          destruct (print_arg_val oo inp cc pp) as [[[[t tmp] cols1] bb1]|] eqn:Epr; [|discriminate] end.
   all: match type of Ecv with _ = ?cv =>
          destruct (print_iter_any a0 rest (n + 1 - i) prev t tmp cols cols1 bb1 cv Hg Hlen Hprev Ecv ltac:(discriminate) Epr)
            as (its1 & inc & -> & -> & Hinc & Hrange & Horig & Hit & Hnth) end.
-  all: cbv beta iota in Hrun.
+  all: cbn [andb] in Hrun; cbv beta iota in Hrun.
   all: destruct (lb_check (linelength o) cols1 (len t) awtl) as [[brk_ cols2] awtl2] eqn:Elb.
   all: rewrite <- Hinc in Hrun.
   all: assert (Hsk : skipz (Z.of_nat inc) (a0 :: rest) = skipn inc (a0 :: rest)) by (unfold skipz; now rewrite Nat2Z.id).
@@ -335,7 +338,7 @@ Qed.
 Lemma print_arr_loop_iseq : forall fuel elems prev i n acc bb wrt cols awtl text w c bb',
   Forall goodc elems -> Z.of_nat (length elems) < 2 ^ 31 -> n + 1 - i = Z.of_nat (length elems) ->
   (forall p, prev = Some p -> scalar p) ->
-  print_array_loop print_arg_val fuel o elems prev i n acc false bb wrt cols awtl = Some (text, w, c, bb') ->
+  print_array_loop print_arg_val parr fuel o elems prev i n acc false bb wrt cols awtl = Some (text, w, c, bb') ->
   exists its sfx, text = acc ++ sfx /\ w = wrt + len sfx /\ bb' = bb /\
     iseq_from true prev its sfx /\ iorig its = elems.
 Proof.
@@ -362,7 +365,7 @@ Qed.
 (* the whole array *)
 Lemma print_array_iseq n ty elems cols blank text w c bb :
   Forall goodc elems -> Z.of_nat (length elems) < 2 ^ 31 -> n = Z.of_nat (length elems) -> elems <> [] ->
-  print_array print_arg_val o (VArr ty n :: elems) cols blank = Some (text, w, c, bb) ->
+  print_array print_arg_val parr o (VArr ty n :: elems) cols blank = Some (text, w, c, bb) ->
   exists its T, text = (if bb then sp4 else []) ++ 91 :: T ++ [93] /\ w = len text /\
     iseq_from false None its T /\ iorig its = elems /\ its <> [].
 Proof.
@@ -529,7 +532,7 @@ Proof.
   replace (Z.of_nat f1 <=? 0) with false in Hp by lia.
   replace (Z.of_nat f1 - 0) with (Z.of_nat (length elems) + 1) in Hp by lia.
   rewrite conv_single_array in Hp. cbn [print_arg_val_top] in Hp.
-  destruct (print_array print_arg_val o (VArr ty (Z.of_nat (length elems)) :: elems) 0 false)
+  destruct (print_array print_arg_val print_arr o (VArr ty (Z.of_nat (length elems)) :: elems) 0 false)
     as [[[[t tmp] cols1] bb]|] eqn:Epa; [|discriminate].
   change (breaks_itself (av_type (VArr ty (Z.of_nat (length elems))))) with true in Hp.
   cbv beta iota zeta in Hp. cbn [orb negb andb] in Hp. destruct bb; [discriminate|].
@@ -545,7 +548,7 @@ Proof.
     destruct (single_token_reads [91; 93] 1 [VArr 32 0] ltac:(cbn; lia) eq_refl ltac:(lia) eq_refl
                 (Hs 1%nat None true false) (Hc 1%nat [] 0 true)) as [H1 H2].
     split; [reflexivity|]. split; [exact H1|]. split; [exact H2|]. split; reflexivity.
-  - destruct (print_array_iseq dec2f dec2d o _ ty (a0 :: rest) 0 false t tmp cols1 false Hg ltac:(lia) eq_refl
+  - destruct (print_array_iseq dec2f dec2d o print_arr _ ty (a0 :: rest) 0 false t tmp cols1 false Hg ltac:(lia) eq_refl
                 ltac:(discriminate) Epa) as (its & T & -> & -> & Hseq & Horig & Hne).
     destruct (iseq_from_iseq dec2f dec2d _ _ _ _ Hseq Hne) as (sepz & T' & -> & HL & ->). cbn [app].
     assert (Hty : atys_ok 0 its).
